@@ -1236,6 +1236,8 @@ class Analyzer:
                         d[fld] = (('cb', dv.value) if isinstance(dv.value, bool) else ('c', dv.value)) if isinstance(dv, ast.Constant) else ('default', c.name, fld)
                 return [(st, ('new', c.name, tuple((fld, d[fld]) for fld in c.fields if fld in d)))]
             return self.opaque_call(f, args, kws, st)
+        if f[0] == 'attr' and f[2] == '_asdict' and f[1][0] == 'new' and not args and not kws and not any(k == '**' for k, _ in f[1][2]):
+            return [(st, ('dict', tuple((('c', k), v) for k, v in f[1][2])))]
         if f[0] == 'partial':
             return self.apply(f[1], list(f[2]) + list(args), list(f[3]) + list(kws), st, awaited)
         if f[0] in ('fn', 'bound'):
@@ -1356,6 +1358,9 @@ class Analyzer:
             return None
         if name in ('functools.partial', 'partial') and args and args[0][0] in ('fn', 'bound', 'partial', 'attr', 'g'):
             return [(st, ('partial', args[0], tuple(args[1:]), tuple(kws)))]
+        if name in ('asyncio.wait_for', 'asyncio.shield') and args and args[0][0] == 'coro':
+            # awaited wrappers around a coroutine of ours: the value is the coroutine's
+            return self.apply(args[0][1], list(args[0][2]), list(args[0][3]), st, awaited=True)
         if name == 'getattr' and len(args) == 2 and args[1][0] == 'c' and isinstance(args[1][1], str):
             return self.getattr(st, args[0], args[1][1])
         if name == 'isinstance' or name == 'issubclass':
@@ -1442,6 +1447,14 @@ def canon_cond(v):
     while True:
         if v[0] == 'notv':
             v, pol = v[1], not pol
+            continue
+        if v[0] == 'call' and v[1] == ('g', 'bool') and len(v[2]) == 1 and not v[3]:
+            v = v[2][0]
+            continue
+        if v[0] == 'cmp' and v[1] in ('is', '==', 'is not', '!=') and v[3][0] == 'cb' and v[2][0] != 'cb':
+            # x is True / x == False / x is not True …
+            pol = pol == ((v[1] in ('is', '==')) == bool(v[3][1]))
+            v = v[2]
             continue
         if v[0] == 'cmp':
             op, l, r = v[1], v[2], v[3]
